@@ -6,7 +6,9 @@ MCSeeds == {
   [L |-> LA, keep |-> TRUE,  batch |-> << <<3, 1>>, <<5, 1>>, <<5, 1>>, <<9, 1>> >>, weighted |-> FALSE, dtype |-> "i8", den |-> 1, name |-> 1],
   [L |-> LA, keep |-> TRUE,  batch |-> << <<1, 1>>, <<5, 3>>, <<7, 1>> >>, weighted |-> TRUE,  dtype |-> "f8", den |-> 2, name |-> 2],
   [L |-> LB, keep |-> FALSE, batch |-> << <<3, 1>> >>, weighted |-> FALSE, dtype |-> "i8", den |-> 1, name |-> 1],
-  [L |-> LA, keep |-> TRUE,  batch |-> << <<3, 1>> >>, weighted |-> TRUE, dtype |-> "i4", den |-> 2, name |-> 1]
+  [L |-> LA, keep |-> TRUE,  batch |-> << <<3, 1>> >>, weighted |-> TRUE, dtype |-> "i4", den |-> 2, name |-> 1],
+  \* one heavy entry: the content (200) and its error (200) fit int16, the squared error (40000) does not
+  [L |-> LA, keep |-> TRUE,  batch |-> << <<3, 200>>, <<5, 3>> >>, weighted |-> TRUE, dtype |-> "i8", den |-> 1, name |-> 1]
 }
 MCIds == 1..2
 MCOps == {"New", "NewRefused", "AddRefused", "IAddRefused", "ISubRefused", "ForeignRefused", "NegRefused", "DivZeroRefused",
